@@ -35,6 +35,25 @@ fn run(op: &str, a: &[&str]) -> String {
             let f = FBig::<R, B>::from_repr(repr_of::<B>(a[3], a[4]), ctx);
             hopt_q(RBig::simplest_from_float(&f))
         }),
+        // float_bounds <base> <mode> <precision> <sig> <exp>: the bounds simplest_from_float forms, as stored:
+        // l r incl_l incl_r (R::error_bounds), lb = f - l.with_precision(p+1), rb = f + r.with_precision(p+1),
+        // every FBig as `<significand> <exponent> <context precision>`
+        "float_bounds" => with_float!(a[0], a[1], |R, B| {
+            use dashu_float::round::ErrorBounds;
+            fn fb<R2: dashu_float::round::Round, const B2: Word>(x: &FBig<R2, B2>) -> String {
+                format!("{} {:x}", hrepr(x.repr()), x.precision())
+            }
+            let ctx = Context::<R>::new(usz(a[2]));
+            let f = FBig::<R, B>::from_repr(repr_of::<B>(a[3], a[4]), ctx);
+            let (l, r, incl_l, incl_r) = <R as ErrorBounds>::error_bounds(&f);
+            let precision = match f.precision() {
+                0 => 0,
+                p => p + 1,
+            };
+            let lb = &f - l.clone().with_precision(precision).unwrap();
+            let rb = &f + r.clone().with_precision(precision).unwrap();
+            format!("ok {} {} {} {} {} {}", fb(&l), fb(&r), incl_l as u8, incl_r as u8, fb(&lb), fb(&rb))
+        }),
         _ => "unknown-op".into(),
     }
 }
